@@ -202,6 +202,14 @@ def build(work, tier):
     p.labels = {}
     p.expect_post = lem.count('"[lemma.')
     proofs.append(p)
+    # ---------------------------------------------------------------- QXmppClient::sendSensitiveIq / sendIq (client.py)
+    import client
+    cu = client.build_client(work, tier)
+    proofs.extend(cu['proofs'])
+    b.functions.extend(cu['functions'])
+    b.dropped.extend(cu['dropped'])
+    for k_, v_ in cu['fired'].items():
+        b.fired[k_] = b.fired.get(k_, 0) + v_
     if tier == 'thorough':
         # second SAT back end (CBMC's built-in minisat) on the central contracts and the lemma
         import copy
@@ -224,9 +232,10 @@ def build(work, tier):
                     'continuations run by QXmppPromise::finish are modelled as callbacks that may start one new request (OutgoingIqManager::start, by its verified contract) in cancelAll and, through its contract, in onSessionOpened / onSessionClosed / ~QXmppOutgoingClient / the lemma; in handleStanza, finish and the send continuation they are not modelled (see not_covered)',
                     'node handles: unordered_map::extract(iterator) moves exactly that element into the handle, which is destroyed (with the IqState and its promise) when the function under contract returns; one handle per call; extract(key) / insert(node) are not modelled (units/C07/model.h)',
                     'A-UMAP-MOVE move construction of the table transfers all elements and leaves the source empty (units/C07/model.h)',
+                    'client part (units/C07/client.h): A-E2EE QXmppE2eeExtension::encryptIq / decryptIq return a task that finishes once with one alternative of its result variant; A-RAW QXmppOutgoingClient::sendIq returns the task of the raw request; A-THEN QXmppTask::then stores the continuation and runs it once when the task finishes (C13); std::visit(overloaded{...}) runs the arm of the alternative held (structure checked: one arm per alternative); the promise is a ghost finished/handed-on counter',
                     'logging (warning()) dropped by the lowering after a purity check of its arguments'],
         'assumes': scan_assumes(rd('model.h') + rd('model_send.h') + rd('model_reenter.h') + rd('lemma.h') + open(os.path.join(QT, 'opaque.h')).read()),
-        'not_covered': ['the typed continuation chain chainIq/chain in src/base/QXmppFutureUtils_p.h (deep templates) and the QXmppClient::sendIq / sendSensitiveIq / sendGenericIq wrappers',
+        'not_covered': ['the typed continuation chain chainIq/chain in src/base/QXmppFutureUtils_p.h (deep templates), hence QXmppClient::sendGenericIq and the managers\' typed request APIs built on it',
                         'per-manager pending maps of multi-stanza requests (MAM, PubSub, Discovery), including the MAM + encryption non-completion named in the property',
                         'the send-error path inside StreamAckManager (C09); only its effect through the continuation attached in sendIq is verified',
                         'continuations that call back into the table during handleStanza / finish / the send continuation (m_requests.erase(itr) after promise.finish: iterator invalidation by rehash has no observable failure on libstdc++; a re-entrant start with the same id is rejected while the entry is still there), not modelled',
